@@ -55,6 +55,10 @@ def _case(rng, fam, gseed, cfgd):
     case["y0"] = "rand" if rng.random() < 0.4 else "none"
     if fam == "BAND":
         case["gopts"] = {"n": int(rng.integers(50, 160))}
+    elif fam in ("QP", "NLP") and rng.random() < 0.1:
+        case["gopts"] = {"row_force": ["free"]}   # a row without any bound
+    elif fam in ("QP", "NLP") and rng.random() < 0.25:
+        case["gopts"] = {"row_scale_span": 2.5}   # rows of very different scale converge at different rates
     return case
 
 
@@ -96,6 +100,8 @@ def run_case(case):
     ctr["optimal_scaling_" + c["scaling"]] = 1
     for k in set(spec.row_kinds()):
         ctr["optimal_rows_" + k] = 1
+    if case.get("gopts", {}).get("row_scale_span"):
+        ctr["optimal_badly_scaled_rows"] = 1
     for k in set(spec.var_kinds()):
         ctr["optimal_vars_" + k] = 1
     for ax in ("newton", "step_solver", "linear", "control", "penalty", "active"):
@@ -129,7 +135,7 @@ def finalize(agg, tier):
                    "optimal_scaling_none": 12, "optimal_scaling_custom": 12, "optimal_scaling_GradJac": 12,
                    "optimal_scaling_Nominal": 12, "optimal_scaling_KKT": 12,
                    "optimal_rows_eq0": 12, "optimal_rows_eq": 12, "optimal_rows_ge": 12, "optimal_rows_le": 12,
-                   "optimal_rows_ranged": 12, "optimal_vars_fixed": 12, "optimal_vars_boxed": 12,
+                   "optimal_rows_ranged": 12, "optimal_rows_freerow": 8, "optimal_badly_scaled_rows": 20, "optimal_vars_fixed": 12, "optimal_vars_boxed": 12,
                    "optimal_with_active_bound_multiplier": 40, "optimal_with_row_multiplier": 40},
         "assumptions": ["tolerances: optimality tolerance times the exact power-of-two factor of the quantity, times "
                         "(1+1e-6), plus 1e-13 x magnitude for summation order; complementarity of rows additionally "
